@@ -41,6 +41,32 @@ func init() {
 		p := &C16PParams{EPN: []int{2, 2, 3, 4}[r.IntN(4)], Cache: []int{8, 64, 1000, 1000}[r.IntN(4)], Policy: []string{"fifo", "random"}[r.IntN(2)]}
 		n := 4 + r.IntN(9)
 		nkeys := 2 + r.IntN(7)
+		if r.IntN(7) == 0 {
+			// to nothing: every row is deleted again and the table vacuumed (twice: the second vacuum finds
+			// the empty version the first one committed older than its cutoff), then statements that change
+			// nothing, then perhaps a row again. "Committing when nothing changed writes nothing" holds for
+			// a handle that stands on no stored version as well.
+			m := 1 + r.IntN(3)
+			keys := r.Perm(8)[:m]
+			for i, k := range keys {
+				p.Ops = append(p.Ops, C16POp{Kind: "insert", Key: k, Val: i + 1})
+			}
+			for _, k := range keys {
+				p.Ops = append(p.Ops, C16POp{Kind: "delete", Key: k})
+			}
+			p.Ops = append(p.Ops, C16POp{Kind: "w-vacuum"})
+			if r.IntN(4) != 0 {
+				p.Ops = append(p.Ops, C16POp{Kind: "w-vacuum"})
+			}
+			for i, n := 0, 1+r.IntN(2); i < n; i++ {
+				p.Ops = append(p.Ops, C16POp{Kind: []string{"update", "delete"}[r.IntN(2)], Key: keys[0], Val: 7})
+			}
+			if r.IntN(2) == 0 {
+				p.Ops = append(p.Ops, C16POp{Kind: "insert", Key: keys[m-1], Val: 99})
+				p.Ops = append(p.Ops, C16POp{Kind: "update", Key: 8, Val: 5})
+			}
+			return p
+		}
 		if r.IntN(3) == 0 {
 			// there and back: rows are added, a vacuum (by the peer, or the writer's own with a storage fault
 			// inside) removes the history, the rows are deleted again and purged: the tree returns to content
@@ -207,6 +233,9 @@ func runC16Peer(x *Exec) {
 				wr.Step(fmt.Sprintf("op%d:%s", i, op.Kind))
 				label := fmt.Sprintf("op %d (%s k=%d)", i, op.Kind, op.Key)
 				var err error
+				_, present := model[op.Key]
+				changesNothing := (op.Kind == "update" || op.Kind == "delete") && !present
+				m0 := len(w.S.Mut)
 				switch op.Kind {
 				case "insert":
 					if _, ok := model[op.Key]; ok {
@@ -296,6 +325,18 @@ func runC16Peer(x *Exec) {
 					return
 				}
 				acked++
+				if changesNothing {
+					// an UPDATE or DELETE that matches no row: the commit has nothing to publish
+					x.Check()
+					for _, mu := range w.S.MutBy("w", m0) {
+						x.Fail("C16-noop-wrote", "%s matches no row (the table holds %s) but the writer issued %s %s", label, modelRows(), mu.Op, mu.Key)
+						return
+					}
+					x.Probe("noop-statement-checked")
+					if len(model) == 0 {
+						x.Probe("noop-statement-on-empty-table")
+					}
+				}
 				if !verify(label) {
 					return
 				}
